@@ -186,6 +186,16 @@ inline DtorHook & dtorHook()
 	return h;
 }
 
+// optional observer called at the start of every copy / move of a ledgered value (the concurrent harness makes it a
+// scheduling point, so that a copy made outside the lock that should protect its source can be interleaved with the
+// consumer that destroys or reuses the source)
+using CopyHook = void (*)();
+inline CopyHook & copyHook()
+{
+	static CopyHook h = nullptr;
+	return h;
+}
+
 // Id spaces
 enum { kCbBase = 1000000, kPayloadBase = 2000000, kKeyBase = 3000000, kAuxBase = 4000000 };
 
@@ -197,12 +207,14 @@ class LedgeredT
 public:
 	explicit LedgeredT(int id_) : id(id_), moved(false) { stamp(); ledger().onCtor(this, id, 0); }
 	LedgeredT(const LedgeredT & o) : id(o.id), moved(o.moved) {
+		if(copyHook()) copyHook()();
 		o.touch();
 		faults().point(FaultKindCopy);
 		stamp();
 		ledger().onCtor(this, id, 1);
 	}
 	LedgeredT(LedgeredT && o) noexcept(! ThrowingMove) : id(o.id), moved(o.moved) {
+		if(copyHook()) copyHook()();
 		o.touch();
 		if(ThrowingMove) faults().point(7);
 		o.moved = true;
@@ -210,6 +222,7 @@ public:
 		ledger().onCtor(this, id, 2);
 	}
 	LedgeredT & operator = (const LedgeredT & o) {
+		if(copyHook()) copyHook()();
 		o.touch(); touch();
 		faults().point(FaultKindCopy);
 		rebind(o.id);
@@ -217,6 +230,7 @@ public:
 		return *this;
 	}
 	LedgeredT & operator = (LedgeredT && o) noexcept(! ThrowingMove) {
+		if(copyHook()) copyHook()();
 		o.touch(); touch();
 		if(ThrowingMove) faults().point(7);
 		if(this != &o) {
